@@ -42,12 +42,19 @@ def six(f):
 
 
 def positions():
-    sparse = [six(f) for f in gen_seeds.read('sparse.fen')]
-    corner = [six(f) for f in gen_seeds.read('corner.fen')]
-    perft = [six(f) for f in gen_seeds.read('perft.fen')]
-    bench = [six(f) for f in gen_seeds.read('bench.fen')]
-    mates = [six(f) for f in gen_seeds.read('mates.fen')]
-    return sparse, corner, perft, bench, mates
+    """seed suites, restricted to legal positions that have a move (has-moves: one king each, the side that
+    has just moved not in check, at least one legal move)"""
+    suites = []
+    for name in ('sparse.fen', 'corner.fen', 'perft.fen', 'bench.fen', 'mates.fen'):
+        fens = [six(f) for f in gen_seeds.read(name)]
+        tmp = os.path.join(WORK, 'fens-%s-%d.txt' % (name, os.getpid()))
+        os.makedirs(WORK, exist_ok=True)
+        with open(tmp, 'w') as fo:
+            fo.write('\n'.join(fens) + '\n')
+        p = run_harness(['has-moves', '--in', tmp])
+        os.remove(tmp)
+        suites.append([l for l in p.stdout.split('\n') if l.strip()])
+    return tuple(suites)
 
 
 def games(seed, n, plies=30):
@@ -79,16 +86,24 @@ def c11_cases(tier, seed):
     gs = games(seed, 60 if tier == 'quick' else 1500, 24)
     pc = run_harness(['checky', '--seed', seed, '--n', 80 if tier == 'quick' else 2500])
     checky = [l.strip() for l in pc.stdout.split('\n') if l.strip()]
+    ps = run_harness(['shuffles', '--seed', seed, '--n', 40 if tier == 'quick' else 800, '--seeds', os.path.join(ROOT, 'seeds')])
+    shuf = [(l.split('|')[0], l.split('|')[1].split()) for l in ps.stdout.split('\n') if '|' in l]
     cases = []
-    n = 120 if tier == 'quick' else 4000
+    n = 130 if tier == 'quick' else 4000
     while len(cases) < n:
         r = rng.random()
-        if r < 0.35 and checky:
+        if r < 0.15 and shuf:
+            # a shuffle in a position with a material imbalance: the reply that repeats the position is a draw
+            # for the side that is behind (clock small, so only the repetition rule can see it)
+            fen, hist = rng.choice(shuf)
+            hist = list(hist)
+            depth = rng.choice([1, 2, 2, 3])
+        elif r < 0.40 and checky:
             # sparse positions where checks occur inside a shallow tree (the check extension matters)
             fen = rng.choice(checky)
             hist = []
             depth = rng.choice([2, 2, 3, 3])
-        elif r < 0.50:
+        elif r < 0.52:
             fen = rng.choice(sparse + mates)
             hist = []
             depth = rng.choice([1, 2, 3, 3, 4])
@@ -271,7 +286,7 @@ def run_c13(tier, seed, verdict, cov):
     sparse, corner, perft, bench, mates = positions()
     pool = [(f, 3) for f in sparse + mates] + [(f, 2) for f in corner + bench + perft] + [(f, 3) for f in bench[:20]]
     rng.shuffle(pool)
-    pool = pool[:14 if tier == 'quick' else 160]
+    pool = pool[:14 if tier == 'quick' else 160] + [(f, 4) for f in rng.sample(bench, 3 if tier == 'quick' else 12)]
     # sizes of the uninterrupted searches
     probe = [{'id': i, 'fen': f, 'hist': [], 'depth': dp, 'cache': 'fresh', 'group': i} for i, (f, dp) in enumerate(pool)]
     write_cases(os.path.join(d, 'probe.ndjson'), probe)
@@ -282,8 +297,26 @@ def run_c13(tier, seed, verdict, cov):
         if e.get('ev') == 'search' and e['nodes'] > 3:
             sizes[(e['fen'], e['depth'])] = e['nodes']
     limit = 1500 if tier == 'quick' else 60000
+    big = {k: v for k, v in sizes.items() if limit < v <= 150000}
     sizes = {k: v for k, v in sizes.items() if v <= limit}
     cases = c13_cases(tier, seed, sizes)
+    # a few large searches as well (tens of thousands of nodes): only sampled budgets and the asynchronous
+    # interruptions, so that limits which are polled rarely or only deep in the tree are exercised too
+    gid = max([c['group'] for c in cases] + [0])
+    for (fen, depth), sz in list(big.items())[:3 if tier == 'quick' else 20]:
+        gid += 1
+        base = {'fen': fen, 'hist': [], 'depth': depth, 'group': gid, 'cache': 'fresh'}
+        cases.append(dict(base))
+        for nb in sorted(rng.sample(range(1, sz), 12)):
+            cases.append(dict(base, budget=nb))
+        for c in [1, 1, 10, 20, 40, 100, 200, 400]:
+            cases.append(dict(base, clock=c))
+        for m in [1, 2, 5]:
+            cases.append(dict(base, movetime=m))
+        for u in [50, 500, 2000, 5000]:
+            cases.append(dict(base, stop_us=u))
+    for i, c in enumerate(cases):
+        c['id'] = i
     # groups must stay together; split groups over workers
     groups = {}
     for c in cases:
